@@ -90,11 +90,20 @@ type RunOut struct {
 	TraceText    string
 }
 
+// Regen identifies a generated case by its generation parameters (used when
+// the process died before the case could be written out).
+type Regen struct {
+	SeedBase uint64 `json:"seed_base"`
+	Index    int    `json:"index"`
+	Tier     string `json:"tier"`
+}
+
 // ReplayFile is what a VIOLATION line points to.
 type ReplayFile struct {
 	Property  string          `json:"property"`
 	Violation Violation       `json:"violation"`
 	Case      json.RawMessage `json:"case"`
+	Regen     *Regen          `json:"regen,omitempty"`
 	Hash      string          `json:"event_log_hash"`
 	Detail    string          `json:"detail,omitempty"`
 	Note      string          `json:"note,omitempty"`
@@ -140,7 +149,31 @@ func Main(t *testing.T, runners map[string]Runner, warmup func(t *testing.T)) {
 	if warmup != nil {
 		warmup(t)
 	}
+	lastFlush := time.Now()
+	flush := func() {
+		var sp []uint64
+		for k := range pairs {
+			sp = append(sp, k)
+		}
+		sort.Slice(sp, func(i, j int) bool { return sp[i] < sp[j] })
+		out.SwitchPairs = sp
+		out.WallS = time.Since(start).Seconds()
+		ob, _ := json.Marshal(out)
+		tmp := job.Out + ".tmp"
+		if err := os.WriteFile(tmp, ob, 0o644); err == nil {
+			_ = os.Rename(tmp, job.Out)
+		}
+	}
 	one := func(idx int, seed uint64, replay json.RawMessage) {
+		// progress marker: if the process dies (fatal error of the code under test),
+		// the driver knows which run it was and keeps the results flushed so far
+		_ = os.WriteFile(job.Out+".progress", []byte(fmt.Sprintf(`{"index":%d,"seed":%d}`, idx, seed)), 0o644)
+		defer func() {
+			if time.Since(lastFlush) > 3*time.Second {
+				flush()
+				lastFlush = time.Now()
+			}
+		}()
 		ro := run(t, seed, job.Tier, replay, job.Trace)
 		out.Runs++
 		out.Steps += int64(ro.Steps)
@@ -196,7 +229,12 @@ func Main(t *testing.T, runners map[string]Runner, warmup func(t *testing.T)) {
 		if err := json.Unmarshal(rb, &rf); err != nil {
 			t.Fatal(err)
 		}
-		one(0, 0, rf.Case)
+		if rf.Regen != nil {
+			job.Tier = rf.Regen.Tier
+			one(rf.Regen.Index, MixSeed(rf.Regen.SeedBase, rf.Regen.Index), nil)
+		} else {
+			one(0, 0, rf.Case)
+		}
 	} else {
 		for i := 0; i < job.Count; i++ {
 			if job.BudgetS > 0 && time.Since(start).Seconds() > job.BudgetS {
@@ -206,13 +244,6 @@ func Main(t *testing.T, runners map[string]Runner, warmup func(t *testing.T)) {
 			one(idx, MixSeed(job.SeedBase, idx), nil)
 		}
 	}
-	for k := range pairs {
-		out.SwitchPairs = append(out.SwitchPairs, k)
-	}
-	sort.Slice(out.SwitchPairs, func(i, j int) bool { return out.SwitchPairs[i] < out.SwitchPairs[j] })
-	out.WallS = time.Since(start).Seconds()
-	ob, _ := json.Marshal(out)
-	if err := os.WriteFile(job.Out, ob, 0o644); err != nil {
-		t.Fatal(err)
-	}
+	flush()
+	_ = os.WriteFile(job.Out+".done", []byte("ok"), 0o644)
 }
